@@ -46,13 +46,29 @@ inline int error_tag(std::exception_ptr e) {
   catch (...) { return -2; }
 }
 
+// Moving from a probe receiver is destructive (as for a receiver that owns its state through a unique_ptr): the library
+// must never complete or query a receiver it has already moved from.
+struct MoveGuard {
+  bool moved = false;
+  MoveGuard() = default;
+  MoveGuard(const MoveGuard&) = default;
+  MoveGuard& operator=(const MoveGuard&) = default;
+  MoveGuard(MoveGuard&& o) noexcept : moved(o.moved) { o.moved = true; }
+  MoveGuard& operator=(MoveGuard&& o) noexcept { moved = o.moved; if (&o != this) o.moved = true; return *this; }
+  void use(const char* what) const {
+    if (moved) vmcrt::fail("C02,C12,C18", "moved-from-receiver", (std::string("a receiver was used after it had been moved from: ") + what).c_str());
+  }
+};
+
 template <class Sched = unifex::inline_scheduler, class Token = unifex::inplace_stop_token>
 struct Rcv {
   RcvState* s;
   Token tok{};
   Sched sch{};
+  MoveGuard g{};
   template <class... A>
   void set_value(A&&... a) noexcept {
+    g.use("set_value");
     s->nvalues = (int)sizeof...(A);
     s->value = (int)sizeof...(A);
     bool got = false;
@@ -61,15 +77,16 @@ struct Rcv {
   }
   template <class E>
   void set_error(E&& e) noexcept {
+    g.use("set_error");
     if constexpr (std::is_same_v<std::decay_t<E>, std::exception_ptr>) s->err_tag = error_tag(e);
     else if constexpr (std::is_same_v<std::decay_t<E>, tagged_error>) s->err_tag = e.tag;
     else if constexpr (std::is_convertible_v<E, int>) s->err_tag = (int)e;
     else s->err_tag = -2;
     s->signal('E');
   }
-  void set_done() noexcept { s->signal('D'); }
-  friend Token tag_invoke(unifex::tag_t<unifex::get_stop_token>, const Rcv& r) noexcept { return r.tok; }
-  friend Sched tag_invoke(unifex::tag_t<unifex::get_scheduler>, const Rcv& r) noexcept { return r.sch; }
+  void set_done() noexcept { g.use("set_done"); s->signal('D'); }
+  friend Token tag_invoke(unifex::tag_t<unifex::get_stop_token>, const Rcv& r) noexcept { r.g.use("get_stop_token"); return r.tok; }
+  friend Sched tag_invoke(unifex::tag_t<unifex::get_scheduler>, const Rcv& r) noexcept { r.g.use("get_scheduler"); return r.sch; }
  private:
   template <class X>
   void take(bool& got, X&& x) noexcept {
@@ -162,12 +179,12 @@ struct FreeCtl {
 // receiver that records the signal and then destroys (frees) the operation state it belongs to
 template <class Sched = unifex::inline_scheduler, class Token = unifex::inplace_stop_token>
 struct FreeingRcv {
-  RcvState* s; FreeCtl* ctl; Token tok{}; Sched sch{};
-  template <class... A> void set_value(A&&... a) noexcept { Rcv<Sched, Token>{s, tok, sch}.set_value((A&&)a...); ctl->free_now(); }
-  template <class E> void set_error(E&& e) noexcept { Rcv<Sched, Token>{s, tok, sch}.set_error((E&&)e); ctl->free_now(); }
-  void set_done() noexcept { Rcv<Sched, Token>{s, tok, sch}.set_done(); ctl->free_now(); }
-  friend Token tag_invoke(unifex::tag_t<unifex::get_stop_token>, const FreeingRcv& r) noexcept { return r.tok; }
-  friend Sched tag_invoke(unifex::tag_t<unifex::get_scheduler>, const FreeingRcv& r) noexcept { return r.sch; }
+  RcvState* s; FreeCtl* ctl; Token tok{}; Sched sch{}; MoveGuard g{};
+  template <class... A> void set_value(A&&... a) noexcept { g.use("set_value"); Rcv<Sched, Token>{s, tok, sch}.set_value((A&&)a...); ctl->free_now(); }
+  template <class E> void set_error(E&& e) noexcept { g.use("set_error"); Rcv<Sched, Token>{s, tok, sch}.set_error((E&&)e); ctl->free_now(); }
+  void set_done() noexcept { g.use("set_done"); Rcv<Sched, Token>{s, tok, sch}.set_done(); ctl->free_now(); }
+  friend Token tag_invoke(unifex::tag_t<unifex::get_stop_token>, const FreeingRcv& r) noexcept { r.g.use("get_stop_token"); return r.tok; }
+  friend Sched tag_invoke(unifex::tag_t<unifex::get_scheduler>, const FreeingRcv& r) noexcept { r.g.use("get_scheduler"); return r.sch; }
 };
 template <class S, class R>
 struct HeapOp {
